@@ -12,6 +12,11 @@ package main
 // Client.Create()), a request server whose FilePut handler is no sftp.OpenFileWriter (reads through a read-write open
 // must fail cleanly), and a client packet size above the server's max payload on the refilling read paths.
 //
+// The request server also runs over the package's OWN example backend sftp.InMemHandler() (xfer_inmem.go), and beside
+// the single transfers there are HISTORIES of one file (xfer_hist.go: data, shrink by Truncate / O_TRUNC / Create over
+// the existing name, a sparse write beyond the new end, read everything back) mirrored call by call on an os.File twin:
+// what a file holds is the outcome of everything done to it (the bytes of a hole are zeros, whatever was there before).
+//
 // Oracles: (1) outcome: bytes delivered / stored, count, error; (2) wire conformance on the
 // scripted peer: the multiset of (offset, length) READ/WRITE requests is the chunk plan;
 // (3) the same outcome when the replies are permuted. Model: the recorded plan is compared with
@@ -26,6 +31,7 @@ import (
 	"os"
 	"path/filepath"
 	"runtime"
+	"strings"
 	"sync"
 
 	"verifharness/lib"
@@ -174,7 +180,7 @@ func xfC01Check(cs xfCase, out xfOutcome, fail xfFailer, hist func(...string)) {
 		if !out.OpenSeen || out.OpenWire != mode.Wire {
 			fail("open/pflags-on-wire", "the OPEN request does not carry the pflags of the requested mode "+mode.Name, mode.Wire, fmt.Sprintf("%d (seen=%v)", out.OpenWire, out.OpenSeen))
 		}
-	case cs.Srv.Kind == "rs":
+	case cs.Srv.Kind == "rs" && !cs.Srv.InMem: // (the package's own InMemHandler does not report what it was shown)
 		if out.HandlerOp.Flags != mode.HandlerFlags() {
 			fail("open/flags-shown-to-handler", "Request.Pflags() in the handler differs from the mode the client asked for ("+mode.Name+")", fmt.Sprintf("%+v", mode.HandlerFlags()), fmt.Sprintf("%+v via %s", out.HandlerOp.Flags, out.HandlerOp.Via))
 		}
@@ -267,7 +273,9 @@ func xfC01Check(cs xfCase, out xfOutcome, fail xfFailer, hist func(...string)) {
 		if out.N != int64(L) || out.Err != nil {
 			fail("count-error", "a complete write must return (len, nil)", fmt.Sprintf("(%d, <nil>)", L), fmt.Sprintf("(%d, %v)", out.N, out.Err))
 		}
-		if !bytes.Equal(out.FileAfter, want) {
+		if xfInMemEmptyWrite(cs, out) {
+			hist("InMemHandler|empty-write-beyond-end-of-file-extends-the-file-with-zeros(documented difference of the example backend, not asked)")
+		} else if !bytes.Equal(out.FileAfter, want) {
 			d := xfFirstDiff(out.FileAfter, want)
 			fail("content", fmt.Sprintf("served file afterwards is not the expected overwrite (sizes %d vs %d, first difference at byte %d)", len(out.FileAfter), len(want), d),
 				xfShort(want), xfShort(out.FileAfter))
@@ -345,6 +353,8 @@ type xfJob struct {
 	ShortCap int
 	// Fault (request server, C01): the transfers of xfFaultCases - the handler's backend fails at a byte offset
 	Fault bool
+	// Hist (C01): histories of one file (xfer_hist.go) instead of single transfers
+	Hist bool
 }
 
 // xfApplyOpen gives the case its open mode. For the modes that empty the file the drawn size becomes what the name
@@ -436,6 +446,7 @@ func checkC01(c *lib.Ctx) {
 	res := &xfRes{r: r}
 	thorough := c.Tier == "thorough"
 	r.Rule = "transfers = server kind {os, rs} x {allocator off,on} x {max-tx default, 65536} plus scripted peer {in order, permuted replies} x client options MaxPacket{Checked,Unchecked} mp in {1,2,3,4,7,32768} (and 40000 against the servers with max-tx 65536; 262131, 262132, 262135 = around the allocator page / frame limit against both servers with max-tx 262144, allocator on and off, reads of k*p-1,k*p,k*p+1 for k<=3) x MaxConcurrentRequestsPerFile in {1,2,3,64} x UseConcurrentReads x UseConcurrentWrites x UseFstat (quick: every (mp,conc) pair three times per server kind with the booleans rotating; thorough: the full product) x API {ReadAt, Read, WriteTo, WriteAt, Write, ReadFrom with sources Len/Size/Stat/LimitedReader/opaque(+1-byte reads, lying or negative Size, oversized limit), ReadFromWithConcurrency 0/1/3} x (file size, offset, length) from {0,1,k*mp-1,k*mp,k*mp+1 (k=1..3), mp*conc+r} and uniform draws up to 3*mp*conc+2 (thorough: every length 0..3*mp*conc+2 for mp<=7, conc<=3) x open mode of the File {O_RDONLY, O_WRONLY, O_RDWR, each with/without O_CREATE, O_APPEND (the servers take the offsets the client sends: the bytes land at the File offset), O_TRUNC and Client.Create() (the name held pre_open_len bytes before; the transfer sees an empty file), O_CREATE|O_EXCL on a new name, O_CREATE|O_EXCL on an existing name (the open must fail and change nothing)}: the mode rotates over the cases (thorough: also the explicit product mode x API variant x server kind for every fourth option set); the OPEN pflags are read off the wire on the scripted peer, Request.Pflags() in the handler on the request server x request server WITHOUT sftp.OpenFileWriter (FilePut has Filewrite only: a read-write open is served by Filewrite, writes work, every read through that handle must return (0, failure status), deliver nothing, leave file and offset alone, and Close must still release the handle) x client packet size 40000 above the default server max payload 32768 on the refilling read paths (ReadAt/Read/WriteTo with concurrent reads off); plus HANDLER-SIDE FAILURES on the request server {allocator off, on} (thorough: also max-tx 65536) x every (mp,conc) pair x every API variant x 3 (thorough 12; ReadAt/Read/WriteTo: 9 resp. 36) geometries: the in-memory handler's backend breaks at a byte offset At drawn from {chunk start, chunk start+1, chunk end-1, 0, size-1, size, end of the transfer (+1: beyond it, a control)} and a ReadAt / WriteAt touching bytes at or beyond At returns (0, err) or (the bytes below At, err), err rotating through 29 VALUES {io.EOF (premature: the file then ends at At), io.ErrUnexpectedEOF bare / %w-wrapped / in *os.PathError / errors.Join-ed, os.ErrNotExist, os.ErrPermission, %w-wrapped os.ErrNotExist, syscall errnos EIO ENOSPC ENOENT EBADF EDQUOT EINVAL bare and in *os.PathError (ENOENT, EACCES, os.ErrPermission, custom), errors.New, custom types (pointer, with Timeout()), io.ErrClosedPipe, io.ErrShortWrite, fs.ErrClosed, sftp.ErrSSHFxFailure/OpUnsupported/ConnectionLost; for writes also sftp.ErrSSHFxEOF and wrapped io.EOF}, through opens served by Fileread / Filewrite / OpenFile: a nil error only if everything up to the requested end moved, io.EOF only where the file ends, otherwise a non-nil non-EOF error, n within the bytes below At that were delivered / stored contiguously from the start offset, those bytes intact, the offset at start + n (writes: within [start, start + stored]); a case is non-trivial when it needs more than one packet or touches end of file; distinct by (server, options, api, source, sizes)"
+	r.Rule += "; plus the request server over the package's OWN example backend sftp.InMemHandler() {allocator off, on} (xfer_inmem.go: stored and read back by direct calls of its handlers, a fresh file object per case): one covering option set per (mp,conc) pair (32 KiB packets with at most 3 requests per file and half of the variants: memFile.WriteAt sleeps 1 us per byte) x every API variant x open mode as above (documented difference, counted and not asked: an EMPTY write beyond the end of the file extends an InMemHandler file with zeros); plus HISTORIES of one file (xfer_hist.go) against {InMemHandler, InMemHandler+allocator, InMemHandler+max-tx 65536, os, rs, scripted peer, os+allocator, rs+allocator+max-tx 65536} x one covering option set, 4 (thorough 16; 32 KiB packets: a quarter) per option set, 2-3 rounds each of: the file holds data up to hi in {2, mp+1, 2mp, 2mp+1, 3mp, 3mp+2, mp*min(conc,3)+mp+1} (appended or rewritten through WriteAt / Seek+Write / Seek+ReadFrom(6 source kinds) / Seek+ReadFromWithConcurrency(0,1,3)), it is SHRUNK (File.Truncate to {0,1,2,mp-1,mp,half,size-1}; or Close + the same name opened again with O_TRUNC / Client.Create() / O_CREATE|O_TRUNC / plain; or the File of the history is itself opened with O_TRUNC / Create() / O_CREATE|O_TRUNC over a name that held 3mp+2 bytes), a SPARSE write starts gap in {1,2,mp-1,mp,mp+1,2mp+1} bytes beyond the new end with a length in {1,2,mp,mp+1,2mp+1} (half of them ending below what the file held before it was shrunk; a quarter after the file was extended again by Truncate, some of those into the middle of that extension), sometimes a second write further out and one byte into the hole between, and everything is READ BACK (ReadAt of size+1 bytes at 0 / Seek(0)+WriteTo / Seek(0)+Read; Seeks by all three whences), then Close and 4-18 calls after Close; every call is mirrored on an os.File twin over a local file: counts, bytes, errors and offsets after every call, the served file (read on the server side) against the twin after every mutation - the bytes of a hole are zeros whatever the file held there before; a failing history is shrunk call by call; keys history/<call>/<path>/<site>"
 	model := xfProbeModel(c)
 	xfProbeDefects(&model)
 	if model.Seq {
@@ -562,10 +573,72 @@ func checkC01(c *lib.Ctx) {
 			res.Hist("model=not-compared|the-open-is-refused (the model has no open)")
 		case cs.ReadsRefused():
 			res.Hist("model=not-compared|read-through-a-handle-that-serves-no-READ (the model's server serves every handle)")
+		case xfInMemEmptyWrite(cs, out):
+			res.Hist("model=not-compared|InMemHandler extends the file on an empty write beyond its end (documented difference of the example backend)")
 		case cs.ShortCap == 0 && cs.FileLen <= 150000 && cs.Len <= 150000: // (the model works on byte lists; MB-sized cases take seconds)
 			mc.addCase(model, cs, out, xfMaxTx(cs.Srv))
 		}
 		return
+	}
+
+	// runHist runs one history (a sequence of calls on one served file, mirrored on an os.File twin) and reports what
+	// differs under C01's keys. It returns the pair to go on with (a new one after a hang; nil: none could be started).
+	runHist := func(sc xfSeqCase, real *xfReal, dir string, hold *xfPeerHold) *xfReal {
+		run := func(sc xfSeqCase) xfSeqResult { return xfRunSeq(sc, real, hold, dir) }
+		sr := run(sc)
+		res.Case(sc.Text(), true)
+		hs := []string{"history|srv=" + sc.Srv.String(), "history|open=" + sc.Mode().Name + "|srv=" + sc.Srv.String(), fmt.Sprintf("history|opt=mp%d|c%d", sc.Cfg.MP, sc.Cfg.Conc),
+			fmt.Sprintf("history|opt=cr%d|cw%d|fstat%d", xfB(sc.Cfg.CR), xfB(sc.Cfg.CW), xfB(sc.Cfg.Fstat))}
+		for _, k := range xfHistShapes(sc) {
+			hs = append(hs, "history|"+k)
+			if sc.Srv.InMem {
+				hs = append(hs, "history|srv=InMemHandler|"+k)
+			}
+		}
+		res.Hist(hs...)
+		report := func(sc xfSeqCase, fs []xfSeqFailure) {
+			for _, f := range fs {
+				kind := "oracle"
+				if strings.Contains(f.Key, "setup") || strings.Contains(f.Key, "/twin") {
+					kind = "tie"
+				}
+				res.Fail(lib.Failure{Kind: kind, Key: "history/" + strings.TrimPrefix(f.Key, "seq/"), What: fmt.Sprintf("%s (call #%d of the history)", f.What, f.At), Input: sc, Expected: f.Expected, Actual: f.Actual})
+			}
+		}
+		restart := func() *xfReal {
+			if real == nil {
+				return nil
+			}
+			real.Shutdown()
+			nr, err := xfStartPair(sc.Srv, sc.Cfg, dir)
+			if err != nil {
+				res.Fail(lib.Failure{Kind: "tie", Key: "setup/pair", What: err.Error(), Input: sc})
+				return nil
+			}
+			return nr
+		}
+		if sr.SetupErr != nil {
+			res.Fail(lib.Failure{Kind: "tie", Key: "setup", What: sr.SetupErr.Error(), Input: sc})
+			return restart()
+		}
+		for _, f := range sr.Fails {
+			if f.Key == xfKeyF12 {
+				continue // (offset semantics: asserted by C12)
+			}
+			if strings.HasSuffix(f.Key, "/hang") {
+				hangs.Add(sc.Srv)
+				small := sc
+				if f.At+1 < len(small.Ops) {
+					small.Ops = append([]xfOp(nil), small.Ops[:f.At+1]...)
+				}
+				report(small, []xfSeqFailure{f})
+				return restart()
+			}
+			small := xfShrinkSeq(sc, f.Key, run)
+			report(small, run(small).Fails)
+			break
+		}
+		return real
 	}
 
 	if c.Replay != "" {
@@ -575,6 +648,21 @@ func checkC01(c *lib.Ctx) {
 			return
 		}
 		for _, raw := range inputs {
+			var sc xfSeqCase
+			if json.Unmarshal(raw, &sc) == nil && len(sc.Ops) > 0 && sc.Race == nil && sc.Pair == nil {
+				// a history of one file (xfer_hist.go)
+				var real *xfReal
+				if sc.Srv.Kind != "peer" {
+					if real, err = xfStartPair(sc.Srv, sc.Cfg, root); err != nil {
+						r.Fail(lib.Failure{Kind: "tie", Key: "setup/pair", What: err.Error()})
+						return
+					}
+				}
+				if real = runHist(sc, real, root, nil); real != nil {
+					real.Shutdown()
+				}
+				continue
+			}
 			var cs xfCase
 			if err := json.Unmarshal(raw, &cs); err != nil || cs.API == "" {
 				continue // (a crash report lists the in-flight cases of all three checks)
@@ -598,15 +686,23 @@ func checkC01(c *lib.Ctx) {
 
 	specs := append([]xfSrvSpec(nil), xfRealSpecs...)
 	specs = append(specs, xfSrvSpec{Kind: "peer"}, xfSrvSpec{Kind: "peer", Perm: true},
-		xfSrvSpec{Kind: "rs", NoOFW: true}, xfSrvSpec{Kind: "rs", NoOFW: true, Alloc: true, MaxTx: 65536})
+		xfSrvSpec{Kind: "rs", NoOFW: true}, xfSrvSpec{Kind: "rs", NoOFW: true, Alloc: true, MaxTx: 65536},
+		// the request server over the package's own example backend, sftp.InMemHandler() (xfer_inmem.go)
+		xfSrvSpec{Kind: "rs", InMem: true}, xfSrvSpec{Kind: "rs", InMem: true, Alloc: true})
 	var jobs []xfJob
 	rot := int(c.Seed % 8)
 	for si, sp := range specs {
 		cfgs := append(append(xfCoverCfgs(si*3+rot), xfCoverCfgs(si*3+rot+1)...), xfCoverCfgs(si*3+rot+2)...)
-		if thorough && !sp.NoOFW { // (the handler variant differs in how the open is served only: it keeps the covering sets)
+		if thorough && !sp.NoOFW && !sp.InMem { // (the handler variant differs in how the open is served only: it keeps the covering sets)
 			cfgs = xfAllCfgs()
 		}
+		if sp.InMem && !thorough {
+			cfgs = cfgs[:len(cfgs)/3] // (one covering set: memFile.WriteAt sleeps a microsecond per byte)
+		}
 		for _, cfg := range cfgs {
+			if sp.InMem && cfg.MP > 1000 && cfg.Conc > 3 {
+				continue // (megabytes through a backend that sleeps a microsecond per byte)
+			}
 			jobs = append(jobs, xfJob{Spec: sp, Cfg: cfg, Seed: c.Rand.Int63(), Idx: len(jobs)})
 		}
 		if sp.MaxTx >= 40000 {
@@ -660,6 +756,21 @@ func checkC01(c *lib.Ctx) {
 			jobs = append(jobs, xfJob{Fault: true, Spec: sp, Cfg: cfg, Seed: c.Rand.Int63(), Idx: len(jobs)})
 		}
 	}
+	// histories of one file (xfer_hist.go): data, shrink, sparse write beyond the new end, read back - against every kind
+	// of served file system, the package's own InMemHandler first
+	for si, sp := range []xfSrvSpec{{Kind: "rs", InMem: true}, {Kind: "rs", InMem: true, Alloc: true}, {Kind: "os"}, {Kind: "rs"}, {Kind: "peer"},
+		{Kind: "os", Alloc: true}, {Kind: "rs", Alloc: true, MaxTx: 65536}, {Kind: "rs", InMem: true, MaxTx: 65536}} {
+		cfgs := xfCoverCfgs(si*3 + rot + 2)
+		if thorough {
+			cfgs = append(cfgs, xfCoverCfgs(si*3+rot+5)...)
+		}
+		for _, cfg := range cfgs {
+			if sp.InMem && cfg.MP > 1000 && cfg.Conc > 3 && !thorough {
+				continue
+			}
+			jobs = append(jobs, xfJob{Hist: true, Spec: sp, Cfg: cfg, Seed: c.Rand.Int63(), Idx: len(jobs)})
+		}
+	}
 	variants := xfAPIVariants(thorough)
 	var sampleMu sync.Mutex
 	sampled := map[string]bool{}
@@ -686,6 +797,33 @@ func checkC01(c *lib.Ctx) {
 		hold := &xfPeerHold{slot: w}
 		defer hold.Close()
 		cfg := job.Cfg
+		if job.Hist {
+			n := 4
+			if thorough {
+				n = 16
+			}
+			if cfg.MP > 1000 {
+				n = (n + 3) / 4
+			}
+			for s := 0; s < n; s++ {
+				if hangs.Spent(job.Spec) {
+					return
+				}
+				sc := xfHistCase(rng, job.Spec, cfg, job.Idx*5+s+rot)
+				cur := runHist(sc, real, dir, hold)
+				if cur != real && real != nil {
+					// (a pair that was replaced after a hang: the deferred Shutdown above sees the first one only)
+					if cur != nil {
+						defer cur.Shutdown()
+					}
+					real = cur
+				}
+				if real == nil && job.Spec.Kind != "peer" {
+					return
+				}
+			}
+			return
+		}
 		if job.Fault {
 			per := 3
 			if thorough {
@@ -740,6 +878,11 @@ func checkC01(c *lib.Ctx) {
 				ls = []int{classes[(k+vi)%len(classes)], -1}
 				if cfg.MP == 32768 && cfg.Conc == 64 && vi%3 != 0 {
 					ls = ls[:1]
+				}
+				if job.Spec.InMem && cfg.MP > 1000 {
+					if ls = ls[:1]; (vi+k)%2 != 0 {
+						continue // (a backend that sleeps a microsecond per byte: half of the variants, one length each)
+					}
 				}
 			}
 			reps := 1
